@@ -34,6 +34,16 @@ checks.update({
  "C16": ("exploration", "E1", "deterministic simulation: repeated and replicated execution of sampled blocks, results compared field by field", "Every block of sampled histories is executed 6 more times on producer and replicas from the same prior state (fresh Go map iteration orders, different replicas, after restarts) and once more for the commit: write set, digest, state root, cross-state root, cross hashes and events must be identical, and replicas' stored roots equal the producer's. Decided dynamically on the paths the workloads drive.", "Dynamic only: the clause 'no reachable path consults the wall clock or a random source' is decided by divergence on exercised paths, not by static reachability (governance contracts; light-client paths are added by their own checks). Go's map-iteration seed cannot be pinned, so order-dependence is detected with probability 1-2^-k over k repetitions.", "5 C16"),
  "C17": ("exploration", "E1", "deterministic simulation: write-set namespace monitor and key-layout attribution on every executed transaction", "Confinement is monitored on every transaction of every sampled history (all written keys lie under the contract-storage prefix of a registered contract). Unambiguity is checked only on the keys actually produced: each written key of the five governance/registry contracts must be attributable to exactly one record kind of its contract.", "PARTIAL: the 'for all parameter values' reading of key unambiguity needs a symbolic argument over the key constructors and is NOT claimed; header-sync/BTC record layouts are not attributed. Key layout table is the documented storage layout.", "5 C17"),
 })
+def simple(level, eng, tech, text, note, ref): return (level, eng, tech, text, note, ref)
+checks.update({
+ "C06": simple("fault_enumeration","E2","deterministic simulation: append/reload histories against a naive RFC 6962 model, with every reopen/crash position of each history enumerated","Sampled append histories (0-70 leaves quick, 600 thorough) with predictions, marshal/unmarshal and persist; after EVERY step the on-disk state is forked for both fault kinds (clean reopen; crash after the file append but before the size is persisted) and the rest of the history is continued; roots, predictions, inclusion and consistency proofs must equal the naive model and be accepted by the repo's verifiers.","Histories are sampled; the reopen/crash positions of each history are enumerated completely. Torn/shortened hash files are outside the property.","5 C06"),
+ "C07": simple("exploration","E2","deterministic simulation: proof server -> corrupting/delaying channel -> verifying client, against naive tree and RFC 9162 verification","Every single mutation (hash/flag flips, drop/dup/swap, index/size +-1, leaf/interior confusion, truncation, trailing bytes, roots of other sizes) of sampled inclusion, consistency and path proofs, plus sampled multi-mutations (~2.9M tuples per quick batch): anything accepted that is neither the reference tuple nor accepted by the RFC 9162 algorithm is a violation.","Assumes SHA-256 collision resistance. Enumerated malleability classes whose accepted statement is still true (trailing bytes, non-0/1 flags, non-minimal varints in MerkleProve) are counted as probes.","5 C07"),
+ "C09": simple("exploration","E2","deterministic simulation: operation histories against an ordered-map-with-tombstones model","Operation histories (put/delete/get/find/forEach/len/reset, up to 4 open range iterators stepped while writes happen) over colliding/nested keys; compared with the model after every step.","No fault dimension beyond reset and iterator reuse; histories sampled.","5 C09"),
+ "C10": simple("exploration","E2","deterministic simulation: layered views over real LevelDB files with commit/reset/reopen/crash/backend-error faults against a three-map model","Ops at both layers, prefix scans through the join iterator, tx and block commits, close+reopen under live layers, crash between CommitTo and BatchCommit, injected backend Get/iterator errors (wrapper around PersistStore): scans list exactly the live keys with newest values; commit moves exactly the layer's changes; a backend error surfaces and never reads as absent.","Histories sampled; error injection through the PersistStore interface the overlay accepts.","5 C10"),
+ "C11": simple("exploration","E2","deterministic simulation: k-tuples of write histories with equal net effect on twin overlays, digests repeated 8x","2-8 variants of one net write set (permutations, redundant overwrites, put-del-put, different transaction boundaries, rolled-back junk) on separate overlays: ChangeHash and write set equal across variants and across 8 repetitions; deliberately different variants differ.","Digest injectivity is not promised by the property and not asserted (collisions by missing length framing are reported as probes).","5 C11"),
+ "C38": simple("exploration","E6","deterministic simulation: block streams with gaps/repeats/out-of-order heights, restarts and crashes against a sliding-window model","IncrementValidator fed real and synthetic blocks (gaps, repeats, older, far-future), Clean, consensus resync rule, node restart and crash at submit points; BlockRange and Verify(tx,start) compared with a deque model for every pool tx and many starts; the real stateful validator must report every committed tx as duplicate, also right after restart/crash recovery.","Capacity <= 0 and uint32 wrap of the window end are excluded by assumption.","5 C38"),
+ "C43": simple("exploration","E6","deterministic simulation: account operation histories with restart-from-file against a map model","NewAccount for every key type/curve/scheme, import, label/default/scheme changes, ChangePassword, Delete, with process restart between any two steps; every live account decrypts with its password to the same key and with no other sampled password; wrong-password operations fail and change nothing.","Key material from crypto/rand inside poly (nothing logged depends on it); scrypt cost limits quick to ~30 histories; torn wallet writes are outside the property.","5 C43"),
+})
 not_applicable = {
  "C03": "pure function of a list of hashes: no schedule, clock, fault, I/O or second party for a simulation to vary (DESIGN 5, not applicable)",
  "C28": "pure arithmetic on two headers; decided by differential testing or proof against the spec, not by schedules or faults",
@@ -54,6 +64,8 @@ man = {
  },
  "engines": [
   {"name":"E1","path":"sim/engines/e1","serves_properties":[i for i in checks if checks[i][1]=="E1"],"kind_free_text":"cluster of real poly ledgers (producer + followers) driven by seeded plans of native-contract transactions, block cuts, crashes/restarts and Byzantine submissions"},
+  {"name":"E2","path":"sim/engines/storage","serves_properties":[i for i in checks if checks[i][1]=="E2"],"kind_free_text":"storage stack (MemDB, OverlayDB/CacheDB over LevelDB files) and merkle accumulator/verifiers against reference models with reopen/crash/error faults"},
+  {"name":"E6","path":"sim/engines/wallet","serves_properties":[i for i in checks if checks[i][1]=="E6"],"kind_free_text":"wallet file histories with restart; increment/stateful validators over block streams"},
  ],
  "checks": [],
  "not_applicable": [],
